@@ -38,7 +38,9 @@ def main (args : List String) : IO UInt32 := do
   | ["time"] => loopPure stdin stdout timeStep; return 0
   | ["dkgsm"] => loopState stdin stdout dkgStep {}; return 0
   | ["cache"] => loopState stdin stdout cacheStep (Drand.Beacon.Cache.empty 96); return 0
-  | "chain" :: _ => loopState stdin stdout chainStep (Drand.Chain.Stack.init true []); return 0
+  | ["chain", backend] =>
+    let (cap, st) := chainInit backend
+    loopState stdin stdout (chainStep cap) st; return 0
   | ["hash"] => loopPure stdin stdout hashStep; return 0
   | ["secrecy"] => loopPure stdin stdout secrecyStep; return 0
   | ["store", backend] =>
